@@ -241,7 +241,7 @@ class GroupAddress(BaseAddress):
     def __init__(self, address: GroupAddressableType) -> None:
         """Initialize GroupAddress class."""
         if isinstance(address, int):
-            self.raw = address
+            self.raw = int(address)  # normalise bool and other int subclasses
         elif isinstance(address, GroupAddress):
             self.raw = address.raw
         elif isinstance(address, str):
